@@ -35,13 +35,12 @@ fn run_guarded(r: Report, f: impl FnOnce(&Report)) -> i32 {
     if res.is_ok() {
         return r.finish();
     }
-    let (msg, loc) = crate::isolate::first_panic().unwrap_or_default();
-    let in_library = loc.starts_with('/') && loc.contains("/src/") && !loc.starts_with("/rustc/") && !loc.contains("/.cargo/") && !loc.contains("/verif/mc/");
+    let (msg, loc, in_library) = crate::isolate::first_panic().unwrap_or_default();
     if !in_library {
         eprintln!("MACHINERY: explorer for {} panicked at {loc}: {msg}; no verdict", r.id);
         return 2;
     }
-    let file = loc.rsplit_once("/src/").map(|x| format!("src/{}", x.1)).unwrap_or(loc.clone());
+    let file = if loc.starts_with("/rustc/") { format!("(generic operator in core) {}", loc.rsplit_once("/library/").map(|x| x.1).unwrap_or(&loc)) } else { loc.rsplit_once("/src/").map(|x| format!("src/{}", x.1)).unwrap_or(loc.clone()) };
     if r.try_violation(crate::report::Violation {
         identity: format!("panic inside constriction on an input the property covers | {file} | {msg}"),
         detail: format!("the explorer for {} was stopped by a panic raised at {loc}: {msg} (exploration incomplete)", r.id),
